@@ -123,8 +123,10 @@ class Gen:
             args = self.mark_passive(self.pick(ar))
             valid = "".join(rng.choice("VVVU") for _ in range(ar))
             return self.add(dict(name=self.name(), kind="c%d" % ar, args=args, valid=valid, op=rng.choice((0, 0, 0, 1, 2)), id=self.nid()))
-        if r < 0.63:
+        if r < 0.60:
             return self.add(dict(name=self.name(), kind="accum", args=self.pick(1), id=self.nid()))
+        if r < 0.63:
+            return self.add(dict(name=self.name(), kind="conv", args=self.pick(1), ty=rng.choice("IF"), id=self.nid()))
         if r < 0.68:
             if rng.random() < 0.5:
                 args = self.pick(2)
